@@ -80,6 +80,8 @@ def gen(seed, tier="quick"):
         "fns": fns,
         "threads": assign_ids(threads),
         "sched": sched.draw_policy_spec(rng(seed, "swarm")),
+        # a third of the runs start their threads in a copy of the starter's contextvars context (asyncio.to_thread style)
+        "inherit_context": rng(seed, "swarm4").random() < 0.33,
         "opcode_storage": tier == "thorough" and rng(seed, "swarm2").random() < 0.5,
         # pre-emption between ANY two bytecodes of jaxtyping/ (a race wholly inside one source line): ~5x slower,
         # a quarter of the thorough runs and 3% of the quick ones
